@@ -242,20 +242,24 @@ def op_readboth(pol, enc, hdr, modi, d, comment, text):
 OPS = {'readboth': op_readboth, 'likebatch': op_likebatch, 'write': op_write, 'roundtrip': op_roundtrip, 'split': op_split, 'quote': op_quote, 'unquote': op_unquote, 'readpy': op_readpy, 'readpyall': op_readpyall}
 
 
+RAW_OPS = {}   # ops whose single argument is the rest of the line (JSON payloads)
+
+
 def register(name, fn):
     OPS[name] = fn
 
 
 def main():
-    try:
-        import impl_py_engine  # noqa: F401  (registers the engine-level ops when present)
-    except ImportError:
-        pass
+    sys.modules['impl_py'] = sys.modules['__main__']
+    import impl_py_engine  # noqa: F401  (registers the engine-level ops)
     out = sys.stdout
     for line in sys.stdin:
         line = line.rstrip('\n')
         parts = line.split(' ')
         fn = OPS.get(parts[0])
+        if parts[0] in RAW_OPS:
+            fn = RAW_OPS[parts[0]]
+            parts = [parts[0], line[len(parts[0]) + 1:]]
         if fn is None:
             out.write('bad-op\n')
         else:
